@@ -44,3 +44,9 @@ pub fn dec_argv_str(a: &str) -> Vec<String> {
 pub fn dec_argv_bytes(a: &str) -> Vec<Vec<u8>> {
     a.split(',').map(dec_bytes).collect()
 }
+
+pub mod wincut;
+
+pub fn dec_argv_u16(a: &str) -> Vec<Vec<u16>> {
+    a.split(',').map(|w| dec_units(w).into_iter().map(|c| c as u16).collect()).collect()
+}
